@@ -41,6 +41,14 @@ def columnround : List Word → List Word
 /-- section 6 -/
 def doubleround (x : List Word) : List Word := rowround (columnround x)
 
+/-- section 4 as an index pattern: the quarterround of row r starts at its diagonal element, so position 4r+c of the
+    regrouped vector reads y[4r + (r+c) mod 4] -/
+def rowIndex : List Nat := (List.range 16).map fun p => 4 * (p / 4) + (p / 4 + p % 4) % 4
+/-- section 5: columnround is rowround on the transposed matrix -/
+def transposeIndex : List Nat := (List.range 16).map fun p => 4 * (p % 4) + p / 4
+/-- inverse of a permutation of 0..n-1 given as a list -/
+def inverseIndex (l : List Nat) : List Nat := (List.range l.length).map fun x => l.idxOf x
+
 def iterate {α} (f : α → α) : Nat → α → α
   | 0, x => x
   | n + 1, x => iterate f n (f x)
